@@ -408,12 +408,21 @@ def fold(node: ast.AST, env: Dict[str, Any]) -> Any:
                 out2[kk] = fold(v, _SymEnv(env))
         return out2
     if isinstance(node, ast.Call) and isinstance(node.func, ast.Name) and not node.keywords and _FOLD_FUNCS and node.func.id in _FOLD_FUNCS[-1] \
-            and node.func.id not in env:
+            and not dict.__contains__(env, node.func.id):
         # a call of a small module-level function on constants (a table function such as `return {...}[arg]`)
         fns = [x for x in _FOLD_FUNCS[-1][node.func.id] if isinstance(x, ast.FunctionDef)]
         if len(fns) == 1 and len(_FOLD_FUNCS) < 4:
             args = [fold(a, env) for a in node.args]
-            return eval_initialiser(fns[0], args, dict(env), budget=2000)
+            try:
+                return eval_initialiser(fns[0], args, dict(env), budget=2000)
+            except _Unfoldable:
+                # a factory whose result is not a constant (it returns a closure): kept as the call it is, inside a table
+                if isinstance(env, _SymEnv) and all(isinstance(a, (str, int, bool, type(None))) and not isinstance(a, SymName) for a in args):
+                    sc = SymCall(f"{node.func.id}({', '.join(repr(a) for a in args)})")
+                    sc.func = node.func.id
+                    sc.args = tuple(args)
+                    return sc
+                raise
     if isinstance(node, ast.Call) and isinstance(node.func, ast.Attribute) and isinstance(node.func.value, ast.Name) \
             and node.func.value.id == "struct" and node.func.attr == "Struct" and len(node.args) == 1 and not node.keywords:
         sc = SymCall(f"struct.Struct({fold(node.args[0], env)!r})")
@@ -589,12 +598,12 @@ def fold(node: ast.AST, env: Dict[str, Any]) -> Any:
             if isinstance(it, dict):
                 it = tuple(it)
             for v in it:
-                e2 = dict(e)
+                e2 = type(e)(e) if isinstance(e, _SymEnv) else dict(e)
                 assign(g.target, v, e2)
                 if all(fold(c, e2) for c in g.ifs):
                     gen(k + 1, e2)
 
-        gen(0, dict(env))
+        gen(0, type(env)(env) if isinstance(env, _SymEnv) else dict(env))
         if isinstance(node, ast.DictComp):
             return dict(out_items)
         if isinstance(node, ast.SetComp):
